@@ -20,7 +20,7 @@ META = {
     "transitions = (state, slot, allele) entries of the Gibbs/MH vectors and every (scan order, choice sequence) path of the "
     "compound step; non-trivial = ploidy >= 2 and positive posterior",
     "bound": {
-        "quick": "H<=4, P<=4; freqs in {None, flat, skewed, zero-first, zero-last}; F in {0,0.2,0.7}; compound matrix for P<=3,H<=3 (+P=4,H=2)",
+        "quick": "H<=4, P<=4; freqs in {None, flat, skewed, zero-first, zero-last}; F in {0,0.004,0.2,0.7}; compound matrix for P<=3,H<=3 (+P=4,H=2)",
         "thorough": "H<=5, P<=6 (Gibbs/MH); compound matrix up to (H,P) = (5,4), (3,5), (2,6)",
     },
     "assumptions": [
@@ -30,7 +30,7 @@ META = {
     "trusted_base": ["vmc/refmodel.py posterior", "numba py_func == dispatcher source (compound_step)"],
 }
 
-FS = (0.0, 0.2, 0.7)
+FS = (0.0, 0.004, 0.2, 0.7)
 
 
 def warm(tier):
